@@ -10,6 +10,12 @@ Engines (crate engines/h_sock, std harness over /repo/tiny-std + /repo/rusl):
                  (counting handler, no SA_RESTART) once or several times, then the peer acts: the call must
                  not be over before that (EINTR surfaced), not time out early, and deliver intact data;
                  one run under sysmon has the first ppoll answered with an injected -EINTR instead
+  xfer origins   every way of obtaining a stream (accept / accept_with_timeout / try_accept / connect /
+                 connect_with_timeout / try_connect / in-progress try_connect / connect_blocking, Unix and TCP)
+                 x read_with_timeout (silent peer, late peer), read, signal-interrupted read, buffer-filling
+                 write; a time-limited or try call found parked in read/accept4/connect/... on a descriptor
+                 without O_NONBLOCK (5 samples, limit long passed) is refuted; F_GETFL per origin is recorded;
+                 the same calls are judged from a sysmon log (socket call on a blocking descriptor inside the window)
   xfer tries     try_* calls between sysmon markers; the log must show no blocking system call inside
   fdpass         SCM_RIGHTS via rusl sendmsg/recvmsg: iterator output vs an independent walk of the same
                  control bytes, fstat identity, control buffer exact-size (ASan) / against a PROT_NONE page
@@ -78,6 +84,20 @@ TRY_SCN = ["", "unix-try_accept-nothing-pending", "unix-try_accept-connection-pe
            "tcp-try_connect-listener-ready", "tcp-try_connect-accept-queue-full",
            "tcp-inprogress-try_connect-accept-queue-full"]
 SOCK_NONBLOCK = 0o4000
+ORIGINS = ["unix-accept", "unix-accept_with_timeout", "unix-try_accept", "unix-connect", "unix-try_connect",
+           "tcp-accept", "tcp-accept_with_timeout", "tcp-try_accept", "tcp-connect", "tcp-connect_with_timeout",
+           "tcp-try_connect-then-try_connect", "tcp-try_connect-then-connect_blocking"]
+
+
+def _window_name(scn):
+    """-> (family, name, timed?)  timed windows may wait in ppoll with a (non-NULL) timeout"""
+    if 100 <= scn < 100 + len(ORIGINS):
+        return "timed-variants", "read_with_timeout-on-stream-from-" + ORIGINS[scn - 100], True
+    if 200 <= scn < 200 + len(ORIGINS):
+        o = ORIGINS[scn - 200]
+        is_try = "try_" in o
+        return ("try-variants" if is_try else "timed-variants"), "obtaining-stream-by-" + o, not is_try
+    return "try-variants", (TRY_SCN[scn] if 0 < scn < len(TRY_SCN) else "scn%d" % scn), False
 
 
 def judge_try_log(ck, log):
@@ -116,7 +136,7 @@ def judge_try_log(ck, log):
 
 
 def _judge_window(ck, scn, rep, calls, nonblock, closed):
-    name = TRY_SCN[scn] if 0 < scn < len(TRY_SCN) else "scn%d" % scn
+    fam, name, timed = _window_name(scn)
     local_nb = dict(nonblock)
     exits = {}
     for e in calls:
@@ -151,23 +171,27 @@ def _judge_window(ck, scn, rep, calls, nonblock, closed):
                 blocking = True if e.args[4] == 0 else None
             else:
                 blocking = True
-            if blocking:
-                ck.violation("C16/try-variants/%s/blocking-wait-syscall-inside-try-call" % name, det)
+            if blocking and timed and nr in (271, 270, 441, 23):
+                ck.violation("C16/timed-variants/%s/wait-without-timeout-inside-timed-call" % name, det)
+            elif blocking is None and timed:
+                pass  # a wait that carries a timeout is what a time-limited call is supposed to do
+            elif blocking:
+                ck.violation("C16/%s/%s/blocking-wait-syscall-inside-try-call" % (fam, name), det)
             elif blocking is None:
                 ck.note_inconclusive("try window %s: %s with a finite timeout whose value the log does not show" % (name, WAITS[nr]))
         elif nr == sl.NR["futex"] and (e.args[1] & 0x7f) in (0, 9):
-            ck.violation("C16/try-variants/%s/futex-wait-inside-try-call" % name, det)
+            ck.violation("C16/%s/%s/futex-wait-inside-call" % (fam, name), det)
         elif nr in SOCK_OPS:
             fd = sl.s64(e.args[0])
             nb = local_nb.get(fd)
             if nb is False:
-                ck.violation("C16/try-variants/%s/%s-on-blocking-socket" % (name, SOCK_OPS[nr]), det)
+                ck.violation("C16/%s/%s/%s-on-blocking-socket" % (fam, name, SOCK_OPS[nr]), det)
             elif nb is None and (done is None or done.ret not in (-11, -115, -114)):
                 ck.note_inconclusive("try window %s: %s on fd %d of unknown blocking mode" % (name, SOCK_OPS[nr], fd))
     if not closed:
         ck.note_inconclusive("try window %s rep %d never closed; calls seen: %s" % (name, rep, ",".join(names)))
     else:
-        ck.note_distinct("try-log/%s/%s" % (name, "+".join(names)))
+        ck.note_distinct("%s-log/%s/%s" % ("timed" if timed else "try", name, "+".join(sorted(set(names)))))
 
 
 def count_retries(ck, log):
@@ -219,7 +243,13 @@ def judge_miri(ck, res, label):
         in_iter = "ControlMessageIterator" in err or "compat/socket.rs" in err
         m = msg[0] if msg else ""
         oob = any(w in m for w in ("out-of-bounds", "dangling", "memory access", "beyond", "bounds of"))
-        sig = FAMILY + "/overread" if (in_iter and oob) else "C16/cmsg-iter/miri-undefined-behaviour"
+        unaligned = "unaligned" in m or "alignment" in m
+        if in_iter and unaligned:
+            sig = "C16/cmsg-iter/unaligned-control-buffer/miri-unaligned-reference"
+        elif in_iter and oob:
+            sig = FAMILY + "/overread"
+        else:
+            sig = "C16/cmsg-iter/miri-undefined-behaviour"
         where = [l.strip() for l in err.splitlines() if "socket.rs" in l][:3]
         ck.violation(sig, {"detector": "miri", "case": case[-1] if case else None, "error": m[:400], "where": where, "run": label})
         ck.consume(res["out"], context=label)
@@ -294,6 +324,15 @@ def run(ck, replay=None):
     add("intr with sysmon-injected EINTR", "injectlog", log=ilog,
         argv=sl.sysmon_cmd(ilog, [rel + "/xfer", "intr", str(seed * 19), "1" if quick else "4", "inject"],
                            timeout_s=300, idle_ms=0, sysmon=sysmon), timeout=400)
+    # --- every way of obtaining a stream x timed / blocking / interrupted / buffer-filling operations
+    for i in range(2 if quick else 8):
+        d, lab = (dbg, "debug") if i % 2 == 0 else (rel, "release")
+        add("origins %s %d" % (lab, i), "plain", argv=[d + "/xfer", "origins", str(seed * 29 + i), "1" if quick else "6"],
+            timeout=300 if quick else 1500)
+    olog = os.path.join(tmp, "origins.log")
+    add("origins under sysmon", "trylog", log=olog,
+        argv=sl.sysmon_cmd(olog, [rel + "/xfer", "origins", str(seed * 31), "1" if quick else "3"], entries=True,
+                           timeout_s=300, idle_ms=0, sysmon=sysmon), timeout=400)
     add("edge observations", "plain", argv=[rel + "/xfer", "edge", str(seed), "1"], timeout=120)
     # --- try-variants under sysmon
     for i, (d, lab) in enumerate(((dbg, "debug"), (rel, "release"))):
@@ -326,6 +365,14 @@ def run(ck, replay=None):
             k = argv.index("run")
             argv = argv[:k + 1] + ["--release"] + argv[k + 1:]
         add("miri cmsg %d%s" % (i, " (no overflow checks)" if i % 2 == 1 else ""), "miri", argv=argv, env=env, cwd=cwd, timeout=1500)
+    for i in range(2 if quick else 6):
+        # control buffers that start at every offset 1..7 from an aligned address
+        argv, env, cwd = vlib.miri_cmd(CRATE, "h_sock-miri", "cmsg_miri", ["run", seed * 23 + i, 7 if quick else 14, "unaligned"],
+                                       ["-Zmiri-permissive-provenance", "-Zmiri-seed=%d" % (seed % 1000 + 50 + i)])
+        if i % 2 == 1:
+            k = argv.index("run")
+            argv = argv[:k + 1] + ["--release"] + argv[k + 1:]
+        add("miri cmsg unaligned %d" % i, "miri", argv=argv, env=env, cwd=cwd, timeout=1500)
 
     # Miri first (slowest), then the rest
     jobs.sort(key=lambda j: 0 if j[1] == "miri" else 1)
@@ -337,13 +384,13 @@ def run(ck, replay=None):
             if fd.feed(res, label, expect_rc=(0, 3)):
                 ck.note_distinct("engine/" + re.sub(r"\s+\d+$", "", label.replace(" shard", "")).replace(" ", "-"))
         elif kind == "trylog":
-            ok = fd.feed(res, label)
+            ok = fd.feed(res, label, expect_rc=(0, 3))
             if not os.path.exists(kw["log"]):
                 ck.note_inconclusive("%s: no sysmon log" % label)
                 continue
             n = judge_try_log(ck, kw["log"])
             if ok and n:
-                ck.note_distinct("engine/tries-under-sysmon")
+                ck.note_distinct("engine/" + label.replace(" ", "-"))
         elif kind == "injectlog":
             ok = fd.feed(res, label, expect_rc=(0, 3))
             if os.path.exists(kw["log"]):
@@ -370,12 +417,13 @@ def run(ck, replay=None):
     ck.assume("timeouts: only 'Timeout earlier than the requested limit' refutes; elapsed measured on std::time::Instant started before the call")
     ck.assume("'completes when the peer acts' is refuted only by state: harness poll shows the awaited readiness, /proc/<tid>/syscall shows the thread inside ppoll, call sequence number unchanged over 5 samples")
     ck.assume("interrupted waits: a case counts only when the SIGUSR1 handler ran while /proc/<tid>/syscall showed the worker inside ppoll (or sysmon's log shows the injected -EINTR); 'before the peer acted' is judged by the harness's own order of actions")
+    ck.assume("a time-limited call may only wait in a system call that carries its limit: refuted by the thread being inside read/recvfrom/accept4/connect/write on a descriptor whose F_GETFL lacks O_NONBLOCK, limit + 1 s passed, same call over 5 samples; a stream's blocking mode alone is recorded, not judged")
     ck.assume("try-variants: judged from the sysmon log (entries and exits between markers); a ppoll with a finite timeout pointer cannot be valued from the log and is inconclusive")
-    ck.assume("fd passing: expected output is an independent walk of control[0..msg_controllen] as the kernel left it; control buffers are 8-byte aligned as the C API requires")
+    ck.assume("fd passing: expected output is an independent walk of control[0..msg_controllen] as the kernel left it; control buffers start at every alignment (sub-slices at offsets 0..7), canary bytes around them and the msg_control/msg_controllen pair are checked before and after recvmsg")
     ck.assume("blocking connect returning EAGAIN/EALREADY while a backlog is full is recorded as an observation, not judged")
     return ("seeded transfers (transport x payload 0..8MiB x writer/reader chunk class x think-time x connect/accept/close order x write|write_all x read|read_exact|read_to_end, "
             "two threads and two processes, debug and release) with a position-dependent byte pattern checked at the receiver; *_with_timeout limits {0,1ms,50ms,1.1s,+seeded}; "
             "SIGUSR1 (1 or 2..6, seeded offsets) into a worker parked in ppoll for accept/accept_with_timeout/connect/connect_with_timeout/read/read_with_timeout/write, peer acting afterwards or never (timed); "
             "every try_* variant in pending / not-pending / queue-full situations between sysmon markers; SCM_RIGHTS cases n in 0..253 x control size CMSG_SPACE(n)-{8,4,0}+{0,4,8,64} x fill {0xFF,0x00,stale header} x "
-            "buffer placement {exact heap (ASan), PROT_NONE guard page, stack} x msghdr on stack|heap x SO_PASSCRED, compared with a reference walk of the same bytes and fstat identity; Miri on hand-built buffers; "
+            "buffer placement {exact heap (ASan), PROT_NONE guard page, stack, sub-slice at start offset 0..7 with canaries / ending at the allocation end / ending at a guard page} x msghdr on stack|heap x SO_PASSCRED, compared with a reference walk of the same bytes and fstat identity; Miri on hand-built buffers; "
             "distinct = (transport, payload class, chunk classes, order, close, 2thr/2proc) + (n class, buffer class, fill, placement) + timeout (op, limit class) + try scenario cells")
